@@ -541,12 +541,20 @@ def run(ctx):
         ex = [c for c in exhaustive_cases(jr, n, protos, rich) if len(c['members']) > done]
         evaluate(ctx, ex, res, f'exhaustive_len_le_{n}')
         done = n
-    deep = ctx.deep and not unlisted_failure(ctx, res)
-    if deep:
-        ex = [c for c in exhaustive_cases(jr, 5, ('v2',), False) if len(c['members']) == 5]
-        evaluate(ctx, ex, res, 'exhaustive_len_5')
-        done = 5
-    ngen = 60000 if deep else 3000
+    def depth():
+        if unlisted_failure(ctx, res):
+            return 0
+        return 2 if ctx.tier == 'thorough' else 1 if ctx.deep else 0
+    if depth() >= 1:
+        thin = 1 if depth() == 2 else 5
+        ex = [c for c in exhaustive_cases(jr, 5, ('v2',), False, thin=thin) if len(c['members']) == 5]
+        evaluate(ctx, ex, res, 'exhaustive_len_5' + ('' if thin == 1 else '_every_5th'))
+        if thin == 1:
+            done = 5
+    if depth() >= 2:
+        ex = [c for c in exhaustive_cases(jr, 5, ('loose',), False, thin=2) if len(c['members']) == 5]
+        evaluate(ctx, ex, res, 'exhaustive_len_5_loose_every_2nd')
+    ngen = (3000, 30000, 300000)[depth()]
     gen = [random_case(rng, jr) for _ in range(ngen)]
     evaluate(ctx, gen, res, 'generated')
     for c in gen[:2]:
